@@ -42,6 +42,10 @@ tr { display: table-row; }
 td { display: table-cell; padding: 1px; }
 img { display: inline-block; }
 ::marker { unicode-bidi: isolate; font-variant-numeric: tabular-nums; }
+q::before { content: open-quote; }
+q::after { content: close-quote; }
+::footnote-call { content: counter(footnote); vertical-align: super; font-size: smaller; line-height: inherit; }
+::footnote-marker { content: counter(footnote) '. '; }
 `
 
 var uaExtras = []string{
